@@ -82,8 +82,29 @@ static void reset()
 	unlink(g_csv.c_str());
 }
 
-// <ncols> <name>*ncols <cell>* : writes the table through TabularDataFile into g_csv
-static bool writeTable(const Toks& t)
+static bool makeCell(const std::string& c, Var& v)
+{
+	if (c.compare(0, 2, "s:") == 0) {
+		Exact e(unhex(c.substr(2)));
+		v = Var(String(e.p, (int)e.n));
+		return true;
+	}
+	if (c.compare(0, 2, "n:") == 0) {
+		std::string lex = c.substr(2);
+		bool isint = lex.size() <= 9;
+		for (size_t j = 0; j < lex.size() && isint; j++)
+			if (!(isdigit((unsigned char)lex[j]) || (j == 0 && lex[j] == '-' && lex.size() > 1))) isint = false;
+		if (isint && lex != "-0") v = Var(atoi(lex.c_str()));  // an INT Var: printed with %i
+		else v = Var(strtod(lex.c_str(), NULL));               // a NUMBER Var: printed with %.15g
+		return true;
+	}
+	return false;
+}
+
+// <ncols> <name>*ncols <item>* : writes the table through TabularDataFile into g_csv.
+// items: a cell, `[` cells `]` = one array Var handed to operator<<, `=` = the same array Var object again.
+// lens receives the lengths the caller's array Vars have after all the writing.
+static bool writeTable(const Toks& t, std::string& lens)
 {
 	if (t.size() < 2) return false;
 	size_t n = (size_t)num(t[1]);
@@ -91,25 +112,31 @@ static bool writeTable(const Toks& t)
 	Array<String> cols;
 	for (size_t i = 0; i < n; i++) cols << S(unhex(t[2 + i]));
 	unlink(g_csv.c_str());
-	TabularDataFile f(S(g_csv));
-	f.columns(cols);
-	for (size_t i = 2 + n; i < t.size(); i++) {
-		const std::string& c = t[i];
-		if (c.compare(0, 2, "s:") == 0) {
-			Exact e(unhex(c.substr(2)));
-			f << Var(String(e.p, (int)e.n));
+	std::vector<Var*> arrays;
+	bool ok = true, open = false;
+	{
+		TabularDataFile f(S(g_csv));
+		f.columns(cols);
+		for (size_t i = 2 + n; i < t.size() && ok; i++) {
+			const std::string& c = t[i];
+			if (c == "[") { if (open) ok = false; else { arrays.push_back(new Var(Var::ARRAY)); open = true; } }
+			else if (c == "]") { if (!open) ok = false; else { open = false; f << *arrays.back(); } }
+			else if (c == "=") { if (open || arrays.empty()) ok = false; else f << *arrays.back(); }
+			else {
+				Var v;
+				if (!makeCell(c, v)) ok = false;
+				else if (open) *arrays.back() << v;
+				else f << v;
+			}
 		}
-		else if (c.compare(0, 2, "n:") == 0) {
-			std::string lex = c.substr(2);
-			bool isint = lex.size() <= 9;
-			for (size_t j = 0; j < lex.size() && isint; j++)
-				if (!(isdigit((unsigned char)lex[j]) || (j == 0 && lex[j] == '-' && lex.size() > 1))) isint = false;
-			if (isint && lex != "-0") f << Var(atoi(lex.c_str()));  // an INT Var: printed with %i
-			else f << Var(strtod(lex.c_str(), NULL));               // a NUMBER Var: printed with %.15g
-		}
-		else return false;
+		if (open) ok = false;
 	}
-	return true;
+	lens.clear();
+	for (size_t i = 0; i < arrays.size(); i++) {
+		lens += (i ? "," : " lens=") + str(arrays[i]->length());
+		delete arrays[i];
+	}
+	return ok;
 }
 
 static std::string readTable()
@@ -201,13 +228,15 @@ static std::string step(const Toks& t)
 		return dumpNonEmpty(f);
 	}
 	if (op == "tabw") {
-		if (!writeTable(t)) return "bad-op";
+		std::string lens;
+		if (!writeTable(t, lens)) return "bad-op";
 		std::string text;
 		getFile(g_csv, text);
-		return hex(text);
+		return hex(text) + lens;
 	}
 	if (op == "tabrt" || op == "tabrtx") {
-		if (!writeTable(t)) return "bad-op";
+		std::string lens;
+		if (!writeTable(t, lens)) return "bad-op";
 		return readTable();
 	}
 	if (op == "tabread" && t.size() == 2) {
